@@ -52,7 +52,9 @@ class C07:
         return None
 
     # ------------------------------------------------------------------ R07.1 / R07.5
-    def check_matrix(self):
+    def check_matrix(self, strict=True):
+        """strict=False (used when C08 delegates here): only the index/argument pairing of the cell -- C08 needs the
+        reported affinity of a *matched* pair to be that pair's affinity, not that every cell is filled."""
         ctx = self.ctx
         s = ctx.summ.of_func(MATCH, "match_geometries")
         src, tgt = ("param", s.params[0]), ("param", s.params[1])
@@ -71,6 +73,8 @@ class C07:
             shape = kw.get("shape", mat[2][0] if mat[2] else None)
         if shape == ("tuple", (LEN(src), LEN(tgt))) and mat[1][1] == "numpy.zeros":
             ctx.ok("R07.1", site, "matrix = zeros((len(source), len(target)))")
+        elif not strict:
+            pass
         else:
             ctx.bad("R07.1", self.file, "match_geometries", f"cost_matrix = {show(mat)[:70]}",
                     f"the affinity matrix is not zeros((len(source), len(target))): {show(mat)[:90]}", st.lineno)
@@ -97,6 +101,8 @@ class C07:
             else:
                 ctx.bad("R07.1", self.file, "match_geometries", f"compute_affinity(... {k}={show(bound.get(k, NONE))})",
                         f"the caller's {k} is not forwarded to compute_affinity (receives {show(bound.get(k, NONE))})", st.lineno)
+        if not strict:
+            return mat
         # loop must be unfiltered over all pairs
         for lid in st.loops:
             L = s.loops[lid]
@@ -107,13 +113,15 @@ class C07:
                     "matrix cells are only assigned conditionally", st.lineno)
         return mat
 
-    def check_report(self, mat):
+    def check_report(self, mat, solver=True):
         ctx = self.ctx
         s = ctx.summ.of_func(MATCH, "match_geometries")
         site = f"{self.file}:{s.node.lineno} match_geometries"
         sel = ("global", f"{MATCH}:_select_matches", "func")
         calls = [e for e in s.calls if e.term[1] == sel]
-        if len(calls) == 1 and calls[0].term[2] == (mat,) and not calls[0].term[3]:
+        if not solver:
+            pass
+        elif len(calls) == 1 and calls[0].term[2] == (mat,) and not calls[0].term[3]:
             ctx.ok("R07.2", f"{self.file}:{calls[0].lineno} match_geometries", "_select_matches receives the filled matrix unmodified")
         else:
             ctx.bad("R07.2", self.file, "match_geometries", f"_select_matches({show(calls[0].term[2][0])[:40] if calls and calls[0].term[2] else ''})",
@@ -156,7 +164,7 @@ class C07:
             ctx.ok("R07.5", f"{self.file}:{y.lineno} match_geometries", "affinity = cost_matrix[source, target] for pairs, 0.0 for one-sided entries")
 
     # ------------------------------------------------------------------ R07.2 - R07.4
-    def check_select(self):
+    def check_select(self, solver=True):
         ctx = self.ctx
         s = ctx.summ.of_func(MATCH, "_select_matches")
         M = ("param", s.params[0])
@@ -169,7 +177,9 @@ class C07:
         kw = dict(call[3])
         arg0 = call[2][0] if call[2] else kw.get("cost_matrix")
         maxim = kw.get("maximize", call[2][1] if len(call[2]) > 1 else ("const", False))
-        if arg0 == M and maxim == ("const", True):
+        if not solver:
+            pass
+        elif arg0 == M and maxim == ("const", True):
             ctx.ok("R07.2", f"{self.file}:{lsa[0].lineno} _select_matches", "linear_sum_assignment(cost_matrix, maximize=True)")
         elif arg0 == ("neg", M) and maxim == ("const", False):
             ctx.ok("R07.2", f"{self.file}:{lsa[0].lineno} _select_matches", "linear_sum_assignment(-cost_matrix) (minimising the negation)")
@@ -254,6 +264,20 @@ class C07:
                     "every pair returned by the solver is yielded as a match, including pairs whose affinity is 0: two "
                     "non-overlapping geometries are reported as matched with affinity 0.0 instead of two one-sided entries",
                     y.lineno, witness={"input": "match_geometries([box A], [disjoint box B])", "observed": "(0, 0, 0.0)"})
+
+
+def run_for_detection(ctx: Ctx):
+    """The part of C07 that C08 relies on: coverage, positive-affinity pairing, reported affinity of the pair
+    (not optimality, not the completeness of the matrix fill)."""
+    ctx.rule("R07.1", "matrix cell (i, j) = compute_affinity(source[i], target[j], caller's buffers)", 3)
+    ctx.rule("R07.3", "rows/columns removed with their pair; leftovers yielded one-sided", 4)
+    ctx.rule("R07.4", "two-sided yield only for positive affinity", 1)
+    ctx.rule("R07.5", "reported affinity = matrix cell of the pair, 0 for one-sided", 1)
+    c = C07(ctx)
+    mat = c.check_matrix(strict=False)
+    if mat is not None:
+        c.check_report(mat, solver=False)
+    c.check_select(solver=False)
 
 
 def run(ctx: Ctx):
